@@ -180,7 +180,9 @@ class Remove(AbstractCommand):
             self.index = self._collection.index(self.value)
         elif self.index < 0:
             self.index += len(self._collection)
-        self._collection.pop(self.index)
+        # keep the element that really left the collection: undo has to put
+        # that one back, not an equal value the caller happened to pass
+        self.value = self._collection.pop(self.index)
 
 
 class Move(AbstractCommand):
